@@ -36,15 +36,17 @@ META = {
     'technique': ('Lean 4 proof over a micro-step program model of every write operation (generic interpreter with '
                   'statement counting, fault injection, statement-level rejection, clean-up handlers) + differential '
                   'correspondence with fault injection at every statement index + state-dump oracle'),
-    'level_text': ('C06_failed_op_is_noop_partial / C06_failed_op_keeps_rows_instances_registrations / C06_success_or_unchanged: '
-                   'for every schema, state (no bound on rows / columns / instances), operation (attribute assignment, set() with '
-                   'any number of columns and extra keywords, syncUpdate, create, inheritable create, destroySelf), every invalid '
-                   'value position, every database rejection and every injected error index k, an operation that raises leaves '
-                   'tables, link tables, every instance and the cache registrations unchanged, outside the failures excluded by the '
-                   'decidable hypothesis `Atomic` (each excluded class has a *_full_FALSE witness that is replayed on the real code '
-                   'every run); C06_frame: for EVERY operation a failure during which no completed micro-step changed anything is a '
-                   'no-op (this is the hypothesis for destroySelf and inheritable create); C06_cleanup_undoes_parent_insert: the '
-                   'clean-up sequence of a failed child create is the exact inverse of the parent creation.'),
+    'level_text': ('C06_failed_op_is_noop_syntactic: for every schema, state (no bound on rows / columns / instances / depth), '
+                   'operation (attribute assignment, set() with any columns and extra keywords, syncUpdate, create, inheritable create of '
+                   'any depth, destroySelf) and injected error index k satisfying the DECIDABLE, purely syntactic condition AtomicSyn '
+                   '(read off the schema, the tables and k), an operation that raises leaves tables, link tables, every instance and the '
+                   'cache registrations unchanged.  AtomicSyn covers: every failure of assignment / syncUpdate / set() (but a ForeignKey given '
+                   'by object); create unless the error hits the read-back SELECT; inheritable create of any depth for every invalid value, '
+                   'constraint violation and injected error at ANY level\'s INSERT (clean-up proved to restore the state by induction over '
+                   'the chain, classes of the chain may have dependents); destroySelf when the failure point lies before the first '
+                   'effective statement computed from the dependents list.  C06_nonatomic_cases_exactly spells out the complement '
+                   '(= the open known findings), C06_destroy_refused_noop_iff gives both directions for a refused destroySelf, '
+                   'C06_frame / C06_failed_op_is_noop_partial (semantic) and the *_full_FALSE witnesses are kept.'),
     'level_note': ('Trusted: Lean kernel; the hand-written micro-step program model of main.py / inheritance (tied on every run by three '
                    'correspondence streams: outcome, SQL statement sequence and full post-state, for the uninjected call and for an error '
                    'at every statement index); statement-level atomicity of SQLite; no signal listeners; cacheValues=True. '
@@ -61,8 +63,9 @@ META = {
                  'an exception raised by the application\'s own property setter inside set() is outside the property (counted, not reported)'],
     'assumptions': ['sqlite_sequence (AUTOINCREMENT counters) is not application data: ids consumed by a failed create are not compared',
                     'the injected error is single-shot: statements after the k-th are executed normally',
-                    'that a child-level failure of an inheritable create is cleaned up is proved as the algebraic inverse lemma C06_cleanup_undoes_parent_insert plus a decide-checked instance; the path through the interpreter (which statements the clean-up runs when the parent class has dependents) is covered by correspondence sampling and the oracle, not by a general theorem',
-                    'destroySelf and inheritable create: the partial theorem has the semantic hypothesis Quiet (no completed micro-step changed anything), not a syntactic one on the dependency graph'],
+                    'AtomicSyn is sufficient, not necessary: a failed call outside it may still be a no-op (destroySelf failing inside a nested cascade before its first effect; inheritable victims after statement 1); the harness counts these (input_distribution: in the gap, no-op)',
+                    'C06_destroy_refused_noop_iff (both directions) is proved for registries whose classes before the first refusing one hold only cascade=False keys to the victim; with null / cascade keys before it only the direction AtomicSyn => no-op is proved',
+                    'inheritable create: classes of the chain must be distinct and hold no policy key to one another; the new id must not be referenced anywhere (ChainSyn)'],
     'exhaustive': False,
 }
 
@@ -988,6 +991,7 @@ def run(ctx):
             ctx.compare('model answer well-formed', desc, ans, 'outcome # log # changes # dump')
             continue
         m_out, m_log, m_changes, m_dump = parts
+        m_changes, _, m_syn = m_changes.strip().partition(' ')
         ctx.compare('outcome: model = implementation', desc, m_out, t['out'])
         ctx.compare('statement sequence: model = implementation', desc, m_log.strip(),
                     ' '.join(stmt_token(v, q) for q in t['log']))
@@ -998,6 +1002,15 @@ def run(ctx):
         if t['out'] != 'ok':
             same = (after == t['before'])
             quiet = (m_changes.strip() == '0')
+            # theorem C06_failed_op_is_noop_syntactic observed on the implementation: the syntactic condition,
+            # decided by the model on the state before the call, implies that the failed real call changed nothing
+            if m_syn == 'syn':
+                ctx.compare('AtomicSyn (decided before the call) => the failed call was a no-op on the implementation', desc,
+                            'noop', 'noop' if same else 'changed')
+            ctx.count('failed %s: %s, %s' % (desc['op'][0], 'AtomicSyn' if m_syn == 'syn' else 'in the gap', 'no-op' if same else 'CHANGED'))
+            if os.environ.get('C06_DEBUG') and m_syn != 'syn' and same:
+                cidx = desc['op'][1] if desc['op'][0] != 'createChain' else desc['op'][1][0][0]
+                ctx.count('DBG gap/no-op %s %s %s %s' % (desc['op'][0], v.order[cidx], t['out'], 'clean' if t['k'] is None else ('k=1' if t['k'] == 1 else 'k>1')))
             if desc['op'][0] in ('createChild', 'createChain') and not quiet:
                 continue     # insert-then-clean-up is a do/undo sequence: changes counted, state restored
             ctx.compare('no completed micro-step changed anything (C06_frame) iff the failed call was a no-op', desc,
